@@ -18,7 +18,7 @@ RULE = ("(1) structured passwords: concatenations of 1-5 fragments (vocabulary w
         "mirrors the detector's counts in a dict model; (4, thorough) an atheris coverage-guided target with the same oracle. "
         "Oracle: validity predicates of pv/segoracle.py on the section list handed to base_structure_creation (tiling, no "
         "empty/untyped segment, label length, per-label soundness incl. the multi-word rule against the model counts) and "
-        "counter deltas == tallies. Non-trivial = >=3 segments or >=2 label categories; distinct = hash of (history, password).")
+        "counter deltas == tallies. Non-trivial = >=3 segments or >=2 label categories; distinct = hash of (history, password). Scale part large_history: a detector trained with 70 000 / 250 000 distinct words (330 000+ trie nodes); every count must be the tally of the history and a sample of words seen threshold times is parsed.")
 ASSUMPTIONS = ["'digit' and 'letter' are Python's str.isdigit / str.isalpha (the notion the code base uses)",
                "the password passed the repository's input filter check_valid()",
                "e-mail / website segments are only required to be non-empty, typed and part of the tiling"]
@@ -294,6 +294,37 @@ def replay_ops(case, rec):
                 raise Violation('detector_count', f'the detector counts {k!r} {mw_real._get_count(k)} time(s), the history implies {v}', case)
 
 
+# ---------------------------------------------------------------- scale: a training history of several hundred thousand words
+def run_large_history(rec, seed, shard, nshards, tier):
+    prop_large_history({'large_history': {'quick': 70000, 'thorough': 250000}[tier]}, rec)
+
+
+def prop_large_history(case, rec):
+    """A multi-word detector trained like on a real leak: `n` distinct words (each seen 1-6 times, some glued from two others), several
+    hundred thousand trie nodes. Every count of the detector must be the tally of the history, and words seen `threshold` times
+    are not split."""
+    from .c03 import word
+    n = case['large_history']
+    mw_real, parser = trainer.new_parser()
+    model = segoracle.MWModel()
+    words = [word(i * 7919 + 11, 5 + i % 6) for i in range(n)]
+    for i, w in enumerate(words):
+        if i % 9 == 0 and i >= 2:
+            w = words[i - 1][:6] + words[i - 2][:6]          # a glued word of up to 12 letters
+        for _ in range(1 + (i * 31) % 6):
+            guard(case, mw_real.train, w)
+            model.train(w)
+    bad = [(k, mw_real._get_count(k), v) for k, v in model.counts.items() if mw_real._get_count(k) != v]
+    rec.case({'distinct_words': len(model.counts), 'train_calls': sum(model.counts.values())}, True, ['history_of_%d_words' % n], key=['large_history', n])
+    if bad:
+        k, got, v = bad[0]
+        raise Violation('detector_count', f'after a history of {n} words: the detector counts {k!r} {got} time(s), the history implies {v} ({len(bad)} words differ)', case)
+    # a sample of whole words seen exactly `threshold` times through the parser: one alpha segment each
+    sample = [k for k, v in model.counts.items() if v == model.threshold][:3000]
+    for k in sample:
+        check_one(case, mw_real, parser, model, k + '1', rec, extra_cls=['large_history_parse'])
+
+
 def run_machine(rec, seed, shard, nshards, tier):
     n = {'quick': 60, 'thorough': 1500}[tier]
     core.hyp_machine(rec, make_machine(rec), n, 20 if tier == 'quick' else 40, seed)
@@ -323,6 +354,7 @@ def run_fuzz(rec, seed, shard, nshards, tier):
 
 
 PARTS = [
+    Part('large_history', run_large_history, prop_large_history, {'quick': 1, 'thorough': 1}),
     Part('atheris_fuzz', run_fuzz, replay_ops, {'quick': 0, 'thorough': 2}),
     Part('corpus', run_corpus, replay_ops, {'quick': 1, 'thorough': 1}),
     Part('structured', run_structured, replay_ops, {'quick': 8, 'thorough': 16}),
